@@ -31,7 +31,9 @@ RECIPES = [
     [md.rule('.*', 'FULLY_CONNECTED', 'SRQ8a')],
     [md.rule('.*', '*', 'DRQ8c')],
 ]
-UPDATES = [('.*', 'TANH', 'NQ'), ('.*', 'FULLY_CONNECTED', 'SRQ16')]
+UPDATES = [('.*', 'TANH', 'NQ'), ('.*', 'FULLY_CONNECTED', 'SRQ16'),
+           # a regex found in the middle of the scope, not at its start
+           ('fully_conn', 'FULLY_CONNECTED', 'NQ')]
 DATASETS = [['mix'], ['pos', 'mix']]
 
 
